@@ -625,15 +625,24 @@ Proof.
   intros Hh Hok Hp. destruct (prepare_ok h es p Hok Hp) as (Htot & Hok' & Hnil & Hhl).
   destruct (marshal_core bbs h es p Hh Hp Htot Hok' Hnil) as (outs & Hem & Hm).
   pose proof (emits_total _ _ Hem) as Lc. rewrite Htot in Lc.
-  eexists _, (concat outs), outs. split; [|split; [reflexivity|split; [reflexivity|split; [exact Hem|]]]].
-  - rewrite Hm. unfold header_bytes. rewrite <- ?app_assoc. cbn [app].
-    rewrite len_suites_bytes, (N.mul_comm 2), Lc.
-    do 2 f_equal.
-    + f_equal. unfold hdr_ok in Hh. autorewrite with lenrw. rewrite Hhl.
-      destruct es; cbn [ext_block]; autorewrite with lenrw; unfold header_length; lia.
-    + destruct es; cbn [ext_block]; rewrite <- ?app_assoc; reflexivity.
-  - unfold marshal_prepare in Hp. destruct (find_padding es None); cbn [bind] in Hp; try discriminate.
-    inversion Hp; subst p. cbn [pr_exts]. destruct o; [apply map_length | reflexivity].
+  set (eb := concat outs).
+  set (tailb := match es with [] => [] | _ => u16be (u16 (len eb)) ++ eb end).
+  assert (Htail : ext_block es (pr_extensions_len p) outs = tailb).
+  { unfold tailb, ext_block, eb. rewrite Lc. destruct es; reflexivity. }
+  assert (Hlt : len tailb = match es with [] => 0 | _ => 2 + pr_extensions_len p end).
+  { unfold tailb. destruct es; [reflexivity|]. rewrite len_app, len_u16be. unfold eb. lia. }
+  set (body := u16be (h_vers h) ++ h_random h
+           ++ [u8 (len (h_sid h))] ++ h_sid h
+           ++ u16be (u16 (len (suites_bytes (h_suites h)))) ++ suites_bytes (h_suites h)
+           ++ [u8 (len (h_comp h))] ++ h_comp h ++ tailb).
+  assert (Hlb : len body = pr_hello_len p).
+  { unfold body. autorewrite with lenrw. rewrite Hlt, Hhl. unfold hdr_ok in Hh. unfold header_length.
+    destruct es; lia. }
+  exists body, eb, outs. split; [|split; [reflexivity|split; [reflexivity|split; [exact Hem|]]]].
+  - rewrite Hm, Htail, Hlb. unfold header_bytes, body.
+    rewrite len_suites_bytes, (N.mul_comm 2). rewrite <- ?app_assoc. reflexivity.
+  - clear -Hp. unfold marshal_prepare in Hp. destruct (find_padding es None) as [pe| |]; cbn [bind] in Hp; try discriminate.
+    inversion Hp; subst p. cbn [pr_exts]. destruct pe; [apply map_length | reflexivity].
 Qed.
 
 Lemma from_raw_install_one rawlen pre pol st post : nopad pre ->
